@@ -224,28 +224,527 @@ Proof.
   all: cbn; try reflexivity; try (unfold max_int64 in *; lia).
 Qed.
 
+(* ------------------------------------------------------------------ *)
+(* st_all / ch_all: one-step unfoldings with the local fix folded *)
+
+Lemma ca_eq (P : step -> bool) (Q : list step -> bool) c :
+  (fix ca (c : list step) {struct c} : bool :=
+     match c with [] => true | x :: r => st_all P Q x && ca r end) c = ch_all P Q c.
+Proof. induction c as [|x r IH]; [reflexivity|]. cbn [ch_all]. rewrite <- IH. reflexivity. Qed.
+
+Lemma st_all_un P Q op a : st_all P Q (SUn op a) = P (SUn op a) && (Q a && ch_all P Q a).
+Proof. cbn [st_all]. rewrite ca_eq. reflexivity. Qed.
+
+Lemma st_all_bin P Q op l r :
+  st_all P Q (SBin op l r) = P (SBin op l r) && (Q l && ch_all P Q l && (Q r && ch_all P Q r)).
+Proof. cbn [st_all]. rewrite !ca_eq. reflexivity. Qed.
+
+Lemma st_all_regex P Q a pat m :
+  st_all P Q (SRegex a pat m) = P (SRegex a pat m) && (Q a && ch_all P Q a).
+Proof. cbn [st_all]. rewrite ca_eq. reflexivity. Qed.
+
+Lemma st_all_index P Q subs :
+  st_all P Q (SIndex subs) =
+  P (SIndex subs) &&
+  forallb (fun ab => Q (fst ab) && ch_all P Q (fst ab) &&
+                     match snd ab with Some c => Q c && ch_all P Q c | None => true end) subs.
+Proof.
+  cbn [st_all]. f_equal.
+  induction subs as [|[a b] r IH]; [reflexivity|].
+  cbn [forallb fst snd]. rewrite <- IH. rewrite !ca_eq.
+  destruct b; rewrite ?ca_eq; reflexivity.
+Qed.
+
+Lemma ch_all_app P Q a b : ch_all P Q (a ++ b) = ch_all P Q a && ch_all P Q b.
+Proof.
+  induction a as [|x a IH]; [reflexivity|]. cbn [app ch_all]. rewrite IH, andb_assoc. reflexivity.
+Qed.
+
+(* ------------------------------------------------------------------ *)
+(* chain-building lemmas *)
+
+Lemma wf_chain_nonnil c : wf_chain L c = true -> c <> [].
+Proof. destruct c; [discriminate|discriminate]. Qed.
+
+Lemma wf_chain_prim st accs :
+  is_accessor_step st = false -> sok st = true ->
+  forallb is_accessor_step accs = true -> cok accs = true -> wf_chain L (st :: accs) = true.
+Proof.
+  intros A B C D. unfold wf_chain. cbn [chain_shape ch_all]. rewrite A, B, C, D. reflexivity.
+Qed.
+
+Lemma is_pred_chain_prim st accs : is_pred_step st = false -> is_pred_chain (st :: accs) = false.
+Proof. intros H. destruct accs; cbn; auto. Qed.
+
+Lemma wf_chain_app c accs :
+  wf_chain L c = true -> forallb is_accessor_step accs = true -> cok accs = true ->
+  wf_chain L (c ++ accs) = true.
+Proof.
+  unfold wf_chain. destruct c as [|h t]; [discriminate|].
+  intros H A B. apply andb_prop in H as [H1 H2]. cbn [chain_shape] in H1. apply andb_prop in H1 as [H0 H1].
+  change ((h :: t) ++ accs) with (h :: (t ++ accs)) at 1.
+  cbn [chain_shape]. rewrite forallb_app, ch_all_app, H0, H1, H2, A, B. reflexivity.
+Qed.
+
+Lemma is_pred_chain_app c accs : c <> [] -> accs <> [] -> is_pred_chain (c ++ accs) = false.
+Proof. destruct c as [|h [|h' t]]; destruct accs; cbn; congruence. Qed.
+
+Lemma sok_un op a : step_ok L (SUn op a) = true -> wf_chain L a = true -> sok (SUn op a) = true.
+Proof. rewrite st_all_un. unfold wf_chain. intros -> ->. reflexivity. Qed.
+
+Lemma sok_bin op l r :
+  step_ok L (SBin op l r) = true -> wf_chain L l = true -> wf_chain L r = true ->
+  sok (SBin op l r) = true.
+Proof. rewrite st_all_bin. unfold wf_chain. intros -> -> ->. reflexivity. Qed.
+
+Lemma sok_regex a pat m :
+  step_ok L (SRegex a pat m) = true -> wf_chain L a = true -> sok (SRegex a pat m) = true.
+Proof. rewrite st_all_regex. unfold wf_chain. intros -> ->. reflexivity. Qed.
+
+Lemma wf_single st : is_accessor_step st = false -> sok st = true -> wf_chain L [st] = true.
+Proof. intros A B. apply wf_chain_prim; auto. Qed.
+
+Lemma wf_un op a :
+  is_accessor_step (SUn op a) = false -> step_ok L (SUn op a) = true -> wf_chain L a = true ->
+  wf_chain L [SUn op a] = true.
+Proof. intros A B C. apply wf_single; [exact A|apply sok_un; assumption]. Qed.
+
+Lemma wf_bin op l r :
+  step_ok L (SBin op l r) = true -> wf_chain L l = true -> wf_chain L r = true ->
+  wf_chain L [SBin op l r] = true.
+Proof. intros B C D. apply wf_single; [reflexivity|apply sok_bin; assumption]. Qed.
+
+Lemma wf_regex a pat m :
+  step_ok L (SRegex a pat m) = true -> wf_chain L a = true -> wf_chain L [SRegex a pat m] = true.
+Proof. intros B C. apply wf_single; [reflexivity|apply sok_regex; assumption]. Qed.
+
+Lemma wf_str t : wf_text t = true -> wf_chain L [SStr t] = true.
+Proof. intros H. apply wf_single; [reflexivity|]. cbn. rewrite H. reflexivity. Qed.
+
+Lemma wf_var t : wf_text t = true -> wf_chain L [SVar t] = true.
+Proof. intros H. apply wf_single; [reflexivity|]. cbn. rewrite H. reflexivity. Qed.
+
+(* ------------------------------------------------------------------ *)
+(* new_regex *)
+
+Lemma lor_bound32 a b : 0 <= a < 32 -> 0 <= b < 32 -> 0 <= Z.lor a b < 32.
+Proof.
+  intros Ha Hb. assert (N: 0 <= Z.lor a b) by (apply Z.lor_nonneg; lia).
+  split; [exact N|].
+  destruct (Z.eq_dec (Z.lor a b) 0) as [E|E]; [lia|].
+  change 32 with (2 ^ 5). apply Z.log2_lt_pow2; [lia|].
+  rewrite Z.log2_lor by lia. apply Z.max_lub_lt.
+  - destruct (Z.eq_dec a 0) as [->|]; [cbn; lia|]. apply Z.log2_lt_pow2; [lia|]. change (2 ^ 5) with 32. lia.
+  - destruct (Z.eq_dec b 0) as [->|]; [cbn; lia|]. apply Z.log2_lt_pow2; [lia|]. change (2 ^ 5) with 32. lia.
+Qed.
+
+Lemma regex_flags_loop_bound l : forall m m',
+  0 <= m < 32 -> regex_flags_loop l m = Some m' -> 0 <= m' < 32.
+Proof.
+  induction l as [|c r IH]; intros m m' Hm H; cbn [regex_flags_loop] in H.
+  - inversion H; subst; exact Hm.
+  - repeat match type of H with
+           | (if ?c then _ else _) = _ => destruct c
+           end; try discriminate;
+      (eapply IH; [|exact H]; apply lor_bound32; [exact Hm|];
+       unfold reICase, reDotAll, reMLine, reWSpace, reQuote; lia).
+Qed.
+
+Lemma new_regex_rP {B} (P : B -> Prop) a pat fl (f : step -> pres B) :
+  (forall m, 0 <= m < 32 ->
+             (Z.land m reWSpace =? 0) || negb (Z.land m reQuote =? 0) = true ->
+             regex_ok L pat m = true -> rP P (f (SRegex a pat m))) ->
+  rP P (rbind (new_regex L a pat fl) f).
+Proof.
+  intros H. unfold new_regex.
+  destruct (regex_flags_loop (bytes_of fl) 0) as [m|] eqn:E; [|exact I].
+  apply regex_flags_loop_bound in E; [|lia].
+  destruct ((Z.land m reQuote =? 0) && negb (Z.land m reWSpace =? 0)) eqn:X; [exact I|].
+  destruct (regex_ok L pat m) eqn:R; [|exact I].
+  cbn [rbind]. apply H; [exact E| |exact R].
+  destruct (Z.land m reQuote =? 0), (Z.land m reWSpace =? 0); cbn in *; congruence.
+Qed.
+
+Lemma step_ok_regex a pat m :
+  is_pred_chain a = false -> wf_text pat = true -> 0 <= m < 32 ->
+  (Z.land m reWSpace =? 0) || negb (Z.land m reQuote =? 0) = true ->
+  regex_ok L pat m = true -> step_ok L (SRegex a pat m) = true.
+Proof.
+  intros A B C D E. cbn [step_ok]. unfold is_expr_chain. rewrite A, B, D, E.
+  destruct C as [C1 C2]. apply Z.leb_le in C1. apply Z.ltb_lt in C2. rewrite C1, C2. reflexivity.
+Qed.
+
+(* ------------------------------------------------------------------ *)
+(* new_unary_or_number *)
+
+Lemma nuon_cases op c :
+  (exists z, c = [SInteger z]) \/ (exists v, c = [SNumeric v]) \/
+  (is_number_chain c = false /\ new_unary_or_number L op c = [SUn op c]).
+Proof.
+  destruct c as [|s [|s' t]].
+  - right; right; split; reflexivity.
+  - destruct s; try (right; right; split; reflexivity); eauto.
+  - right; right; split; destruct s; reflexivity.
+Qed.
+
+Lemma f64_neg_finite v : f64_finite v = true -> f64_finite (f64_neg L v) = true.
+Proof. intros H. rewrite (f64_neg_spec L HL). destruct v; cbn in *; congruence. Qed.
+
+Lemma new_unary_wf op c :
+  op = UPlus \/ op = UMinus -> wf_chain L c = true -> is_pred_chain c = false ->
+  wf_chain L (new_unary_or_number L op c) = true /\
+  is_pred_chain (new_unary_or_number L op c) = false.
+Proof.
+  intros Hop Hw Hp.
+  destruct (nuon_cases op c) as [[z ->]|[[v ->]|[Hn ->]]].
+  - assert (Z: lit_int_ok z = true).
+    { unfold wf_chain in Hw. cbn in Hw. rewrite !andb_true_r in Hw. exact Hw. }
+    destruct Hop as [-> | ->]; cbn [new_unary_or_number]; (split; [|reflexivity]); [exact Hw|].
+    apply wf_single; [reflexivity|]. cbn. rewrite lit_int_ok_opp by exact Z. reflexivity.
+  - assert (Z: f64_finite v = true).
+    { unfold wf_chain in Hw. cbn in Hw. rewrite !andb_true_r in Hw. exact Hw. }
+    destruct Hop as [-> | ->]; cbn [new_unary_or_number]; (split; [|reflexivity]); [exact Hw|].
+    apply wf_single; [reflexivity|]. cbn. rewrite f64_neg_finite by exact Z. reflexivity.
+  - split; [|destruct Hop as [-> | ->]; reflexivity].
+    apply wf_un; [destruct Hop as [-> | ->]; reflexivity| |exact Hw].
+    cbn [step_ok]. unfold is_expr_chain. rewrite Hp, Hn. destruct Hop as [-> | ->]; reflexivity.
+Qed.
+
+(* ------------------------------------------------------------------ *)
+(* p_primary *)
+
+Definition prim_post (a : step * list token) : Prop :=
+  is_accessor_step (fst a) = false /\ is_pred_step (fst a) = false /\
+  sok (fst a) = true /\ Forall tok_ok (snd a).
+
+Lemma p_primary_rP ts res : Forall tok_ok ts -> p_primary L ts = Some res -> rP prim_post res.
+Proof.
+  unfold p_primary. intros F H.
+  repeat match type of H with
+         | match ?x with _ => _ end = _ => destruct x; try discriminate
+         end.
+  all: inversion H; subst; clear H; inv_forall.
+  all: try match goal with
+           | |- rP _ (rbind (new_integer _ ?t) _) =>
+               apply new_integer_rP;
+               [ match goal with H : tok_ok (mktok TInt t) |- _ => tokok H; exact H end | intros ? ? ]
+           | |- rP _ (rbind (new_numeric _ ?t) _) => apply new_numeric_rP; intros ? ?
+           end.
+  all: cbn [rP]; unfold prim_post; cbn [fst snd];
+    (split; [reflexivity|split; [reflexivity|split; [|assumption]]]).
+  all: cbn [st_all step_ok]; repeat tok_text; rewrite ?andb_true_r; try reflexivity.
+  all: try assumption.
+  all: apply lit_int_ok_pos; assumption.
+Qed.
+
+(* ------------------------------------------------------------------ *)
+(* the recursive core *)
+
+Definition sortb (s : sort) : bool := match s with SP => true | SE => false end.
+
+Definition post3 (g : Prop) (a : sort * chain * list token) : Prop :=
+  wf_chain L (snd (fst a)) = true /\ is_pred_chain (snd (fst a)) = sortb (fst (fst a)) /\
+  Forall tok_ok (snd a) /\ (g -> fst (fst a) = SE).
+
+Lemma rP_post3_weaken (g1 g2 : Prop) x : rP (post3 g1) x -> (g2 -> g1) -> rP (post3 g2) x.
+Proof.
+  destruct x as [[[s c] r]|e]; cbn [rP]; [|auto]. unfold post3; cbn [fst snd].
+  intros (A & B & C & D) G. repeat split; auto.
+Qed.
+
+Definition accs_post (ts : list token) (a : chain * list token) : Prop :=
+  forallb is_accessor_step (fst a) = true /\ cok (fst a) = true /\ Forall tok_ok (snd a) /\
+  (starts_accessor ts = true -> fst a <> []).
+
+Definition sub_ok (ab : chain * option chain) : bool :=
+  wf_chain L (fst ab) && is_expr_chain (fst ab) &&
+  match snd ab with Some c => wf_chain L c && is_expr_chain c | None => true end.
+
+Definition index_post (a : list (chain * option chain) * list token) : Prop :=
+  fst a <> [] /\ forallb sub_ok (fst a) = true /\ Forall tok_ok (snd a).
+
+Ltac bools :=
+  repeat match goal with
+         | H : _ && _ = true |- _ => apply andb_prop in H; destruct H as [? ?]
+         end.
+
+Lemma sok_index subs : subs <> [] -> forallb sub_ok subs = true -> sok (SIndex subs) = true.
+Proof.
+  intros N H. rewrite st_all_index. cbn [step_ok].
+  destruct subs as [|x r]; [congruence|]. cbn [negb andb].
+  assert (A: forall (g : chain * option chain -> bool),
+             (forall ab, sub_ok ab = true -> g ab = true) -> forallb g (x :: r) = true).
+  { intros g Hg. rewrite forallb_forall in *. intros ab Hab. apply Hg, H, Hab. }
+  rewrite !A; [reflexivity| |].
+  - intros [a [b|]] Hab; unfold sub_ok, wf_chain in Hab; cbn [fst snd] in *; bools;
+      repeat match goal with H : _ = true |- _ => rewrite H; clear H end; reflexivity.
+  - intros [a [b|]] Hab; unfold sub_ok, wf_chain in Hab; cbn [fst snd] in *; bools;
+      repeat match goal with H : _ = true |- _ => rewrite H; clear H end; reflexivity.
+Qed.
+
+Lemma arith_of_tok_spec k op q : arith_of_tok k = Some (op, q) ->
+  (4 <= q)%nat /\
+  (forall l r, step_ok L (SBin op l r) = is_expr_chain l && is_expr_chain r) /\
+  (forall l r, is_pred_step (SBin op l r) = false).
+Proof.
+  unfold arith_of_tok. intros H.
+  repeat match type of H with
+         | match ?x with _ => _ end = _ => destruct x; try discriminate
+         end.
+  all: inversion H; subst; (split; [lia|split; reflexivity]).
+Qed.
+
+Lemma cmp_of_tok_spec k op : cmp_of_tok k = Some op ->
+  (forall l r, step_ok L (SBin op l r) = is_expr_chain l && is_expr_chain r) /\
+  (forall l r, is_pred_step (SBin op l r) = true).
+Proof.
+  unfold cmp_of_tok. intros H. destruct k; try discriminate; inversion H; subst; split; reflexivity.
+Qed.
+
+
+Lemma rP_top {A} (x : pres A) : rP (fun _ => True) x.
+Proof. destruct x; exact I. Qed.
+
+Lemma rP_ok {A} (P : A -> Prop) x a : rP P x -> x = ROk a -> P a.
+Proof. intros H ->. exact H. Qed.
+
+(* an accessor list that starts with ".", "[" or "?" is not empty *)
+Lemma p_accs_nonnil f ts accs r :
+  starts_accessor ts = true -> p_accs L f ts = ROk (accs, r) -> accs <> [].
+Proof.
+  intros SA E.
+  assert (H: rP (fun a : chain * list token => fst a <> []) (p_accs L f ts)).
+  { clear E. destruct f as [|f]; [exact I|].
+    destruct ts as [|[k txt] r0]; [discriminate|].
+    cbn [starts_accessor] in SA. unfold is_char in SA. cbn [tk] in SA. destruct k; try discriminate.
+    assert (C: c = 46 \/ c = 91 \/ c = 63).
+    { destruct (Z.eqb_spec c 46); [auto|]. destruct (Z.eqb_spec c 91); [auto|].
+      destruct (Z.eqb_spec c 63); [auto|]. discriminate SA. }
+    clear SA. rewrite p_accs_S.
+    destruct C as [-> | [-> | ->]]; cbv beta iota.
+    all: repeat first
+      [ match goal with
+        | |- rP _ (rbind (p_eop _ _ _ _ _) _) => eapply rP_bind; [apply rP_top|]; intros [[? ?] ?] _
+        | |- rP _ (rbind (p_accs _ _ _) _) => eapply rP_bind; [apply rP_top|]; intros [? ?] _
+        | |- rP _ (rbind (p_index _ _ _) _) => eapply rP_bind; [apply rP_top|]; intros [? ?] _
+        | |- rP _ (rbind (p_dot _ _) _) => eapply rP_bind; [apply rP_top|]; intros [? ?] _
+        | |- rP _ (ROk _) => cbn [rP fst]; discriminate
+        end
+      | wstep ]. }
+  exact (rP_ok _ _ _ H E).
+Qed.
+
+Definition core_wf (f : nat) : Prop :=
+  (forall po ts, Forall tok_ok ts -> rP (post3 (po = false)) (p_unary L f po ts)) /\
+  (forall minp po ts, Forall tok_ok ts ->
+     rP (post3 (po = false /\ (4 <= minp)%nat)) (p_eop L f minp po ts)) /\
+  (forall minp s lhs ts, Forall tok_ok ts -> wf_chain L lhs = true -> is_pred_chain lhs = sortb s ->
+     rP (post3 (s = SE /\ (4 <= minp)%nat)) (p_loop L f minp s lhs ts)) /\
+  (forall ts, Forall tok_ok ts -> rP (accs_post ts) (p_accs L f ts)) /\
+  (forall ts, Forall tok_ok ts -> rP index_post (p_index L f ts)).
+
+Ltac fa := first [assumption | apply Forall_cons; [assumption|fa] | apply Forall_nil].
+
+Ltac norm := subst; inv_forall; cbn [sortb] in *.
+
+Ltac lebs :=
+  repeat match goal with
+         | H : (_ <=? _)%nat = true |- _ => apply Nat.leb_le in H
+         | H : (_ <=? _)%nat = false |- _ => apply Nat.leb_gt in H
+         end.
+
+(* use the "sort is expr" part of a post3 when its guard is provable *)
+Ltac use_se :=
+  match goal with
+  | H : ?G -> ?s = SE |- _ =>
+      try (let E := fresh "E" in
+           assert (E : s = SE) by (apply H; first [reflexivity | split; [reflexivity|lia]]);
+           clear H; subst s; cbn [sortb] in *)
+  | _ => idtac
+  end.
+
+Ltac spec_tok :=
+  repeat match goal with
+         | H : arith_of_tok _ = Some (_, _) |- _ =>
+             apply arith_of_tok_spec in H; destruct H as (? & ? & ?)
+         | H : cmp_of_tok _ = Some _ |- _ =>
+             apply cmp_of_tok_spec in H; destruct H as (? & ?)
+         end.
+
+Ltac kstep IHu IHe IHa IHi :=
+  first
+    [ match goal with
+      | |- rP _ (rbind (p_unary _ _ _ _) _) =>
+          norm; eapply rP_bind; [apply IHu; fa|];
+          intros [[?s ?c] ?r] (?Hw & ?Hp & ?Hr & ?Hs); norm; use_se
+      | |- rP _ (rbind (p_eop _ _ _ _ _) _) =>
+          norm; spec_tok; eapply rP_bind; [apply IHe; fa|];
+          intros [[?s ?c] ?r] (?Hw & ?Hp & ?Hr & ?Hs); norm; use_se
+      | |- rP _ (rbind (p_accs _ _ _) _) =>
+          norm; eapply rP_bind; [apply IHa; fa|];
+          intros [?more ?r] (?Hm & ?Hn & ?Hr & ?Hnn); norm
+      | |- rP _ (rbind (p_index _ _ _) _) =>
+          norm; eapply rP_bind; [apply IHi; fa|];
+          intros [?subs ?r] (?Hm & ?Hn & ?Hr); norm
+      | |- rP _ (rbind (p_dot _ _) _) =>
+          norm; eapply rP_bind; [apply p_dot_rP; fa|];
+          intros [?st ?r] (?Ha & ?Hb & ?Hr); norm
+      | |- rP _ (rbind (new_regex _ _ _ _) _) =>
+          norm; apply new_regex_rP; intros ?m ?Hm1 ?Hm2 ?Hm3
+      | |- rP _ (ROk _) => fail 2
+      | |- rP _ (p_loop _ _ _ _ _ _) => fail 2
+      end
+    | wstep ].
+
+Ltac is_pred_rw :=
+  repeat match goal with
+         | H : is_pred_chain ?c = _ |- context [is_pred_chain ?c] => rewrite H
+         end.
+
+Ltac txtg :=
+  match goal with
+  | H : tok_ok (mktok _ ?t) |- wf_text ?t = true => tokok H; exact H
+  end.
+
+Ltac sk :=
+  repeat match goal with
+         | H : forall l r, step_ok L (SBin _ l r) = _ |- _ => rewrite H
+         end;
+  cbn [step_ok]; unfold is_expr_chain; is_pred_rw; cbn [negb andb]; reflexivity.
+
+Ltac wfg :=
+  first
+    [ assumption
+    | apply wf_str; txtg
+    | apply wf_var; txtg
+    | apply wf_un; [reflexivity | sk | wfg]
+    | apply wf_bin; [sk | wfg | wfg]
+    | apply wf_regex; [apply step_ok_regex; first [assumption | txtg] | wfg]
+    | apply wf_chain_app; assumption ].
+
+Ltac predg :=
+  cbn [sortb is_pred_chain];
+  first [ assumption | reflexivity
+        | match goal with H : forall l r, is_pred_step (SBin _ l r) = _ |- _ => apply H end ].
+
+Ltac gg :=
+  let G := fresh "G" in
+  intros G;
+  first [ reflexivity | discriminate G
+        | destruct G as [? ?]; first [assumption | discriminate | exfalso; lebs; lia] ].
+
+Ltac leaf3 :=
+  cbn [rP]; unfold post3; cbn [fst snd];
+  split; [wfg|split; [predg|split; [fa|gg]]].
+
+Ltac loopg IHl :=
+  eapply rP_post3_weaken;
+  [ apply IHl; [fa | wfg | predg]
+  | let G := fresh "G" in
+    intros G; destruct G as [? ?];
+    first [ split; [reflexivity|assumption] | discriminate | exfalso; lebs; lia ] ].
+
+Ltac accleaf :=
+  cbn [rP fst snd];
+  split; [ cbn [forallb is_accessor_step];
+           repeat match goal with H : _ = true |- _ => rewrite H end; reflexivity
+         | split; [|fa] ];
+  cbn [ch_all];
+  first [ reflexivity
+        | apply andb_true_intro; split;
+          [ first [ assumption | reflexivity | apply sok_index; assumption
+                  | apply sok_un; [sk|assumption] ]
+          | assumption ] ].
+
+Lemma core_wf_all : forall f, core_wf f.
+Proof.
+  induction f as [|f [IHu [IHe [IHl [IHa IHi]]]]].
+  { unfold core_wf. repeat split; intros; cbn; exact I. }
+  unfold core_wf. repeat split.
+  - (* p_unary *)
+    intros po ts F. rewrite p_unary_S.
+    destruct (p_primary L ts) as [res|] eqn:Ep.
+    + pose proof (p_primary_rP ts res F Ep) as Hp.
+      eapply rP_bind; [exact Hp|]. intros [st r] (A & B & C & D). norm.
+      repeat kstep IHu IHe IHa IHi.
+      cbn [rP]; unfold post3; cbn [fst snd].
+      split; [apply wf_chain_prim; assumption|].
+      split; [apply is_pred_chain_prim; assumption|]. split; [assumption|reflexivity].
+    + clear Ep. repeat kstep IHu IHe IHa IHi.
+      all: norm.
+      all: try solve [leaf3].
+      * destruct (new_unary_wf UPlus c (or_introl eq_refl) Hw Hp) as [X Y].
+        cbn [rP]; unfold post3; cbn [fst snd]. repeat split; auto.
+      * destruct (new_unary_wf UMinus c (or_intror eq_refl) Hw Hp) as [X Y].
+        cbn [rP]; unfold post3; cbn [fst snd]. repeat split; auto.
+      * cbn [rP]; unfold post3; cbn [fst snd].
+        split; [wfg|split; [|split; [fa|reflexivity]]].
+        apply is_pred_chain_app; [eapply wf_chain_nonnil; eassumption|auto].
+  - (* p_eop *)
+    intros minp po ts F. rewrite p_eop_S. repeat kstep IHu IHe IHa IHi.
+    eapply rP_post3_weaken; [apply IHl; [fa|assumption|assumption]|].
+    intros [G1 G2]. split; [|exact G2].
+    match goal with H : _ -> ?s = SE |- ?s = SE => apply H; exact G1 end.
+  - (* p_loop *)
+    intros minp s lhs ts F W Q. rewrite p_loop_S. repeat kstep IHu IHe IHa IHi.
+    all: norm; spec_tok.
+    all: try solve [leaf3].
+    all: solve [loopg IHl].
+  - (* p_accs *)
+    intros ts F.
+    assert (W: rP (fun a : chain * list token =>
+                     forallb is_accessor_step (fst a) = true /\ cok (fst a) = true /\
+                     Forall tok_ok (snd a)) (p_accs L (S f) ts)).
+    { rewrite p_accs_S. repeat kstep IHu IHe IHa IHi.
+      all: norm.
+      all: solve [accleaf]. }
+    destruct (p_accs L (S f) ts) as [[accs r]|] eqn:E; [|exact I].
+    cbn [rP fst snd] in *. destruct W as (A & B & C). unfold accs_post; cbn [fst snd].
+    repeat split; auto. intros SA. eapply p_accs_nonnil; eauto.
+  - (* p_index *)
+    intros ts F. rewrite p_index_S. repeat kstep IHu IHe IHa IHi.
+    all: norm.
+    all: cbn [rP]; unfold index_post; cbn [fst snd]; (split; [discriminate|split; [|fa]]).
+    all: cbn [forallb]; unfold sub_ok at 1; cbn [fst snd]; unfold is_expr_chain.
+    all: repeat match goal with
+                | H : _ = true |- _ => rewrite H
+                | H : _ = false |- _ => rewrite H
+                end; reflexivity.
+Qed.
+
 (* ---- what is proved of parse_ok_wf ----
 
-   FULL STATEMENT (not proved in full):
+   FULL STATEMENT:
      Theorem parse_ok_wf : forall s p, parse L s = POk p -> wf_path L p.
 
-   Proved below / above:
+   Proved here (under [Laws L]): the token-level theorem
+     parse_tokens_wf : Forall tok_ok ts -> parse_tokens L ts = POk p -> wf_path L p
+   and its corollary
+     parse_ok_wf_from_lexer : Forall tok_ok (lex L s) -> parse L s = POk p -> wf_path L p.
+   The remaining premise, the lexer invariant [Forall tok_ok (lex L s)]
+   (string/identifier/variable/keyword texts are UTF-8 of valid non-NUL runes;
+   INT/NUMERIC texts carry no sign), is proved separately.
+
+   Pieces:
    * parse_ok_validate: the second conjunct of wf_path — "@" occurs only under
      a filter and "last" only inside a subscript (validate_chain = None);
-   * the accessor half of the first conjunct: every accessor step built by
-     p_dot / p_any / p_decimal_args from lexer-shaped tokens is an accessor
-     step satisfying step_ok (acc_post): .decimal() has 0, 1 or 2 int64
-     arguments and never a scale without a precision, .time()/.timestamp()...
+   * accessor steps (p_dot_rP, p_any_rP, p_decimal_args_rP, p_csv_*_rP): every
+     accessor step built from lexer-shaped tokens is an accessor step
+     satisfying step_ok (acc_post): .decimal() has 0, 1 or 2 int64 arguments
+     and never a scale without a precision, .time()/.timestamp()...
      precisions are non-negative int64, .datetime() carries only a template,
      .date() nothing, ".**{...}" bounds are within 0..4294967295, key texts
-     are lexer texts (p_dot_rP, p_any_rP, p_decimal_args_rP, p_csv_*_rP).
-   Missing: the induction over p_unary/p_eop/p_loop/p_accs/p_index that
-   threads wf_chain and the sort tag (is_pred_chain c <-> sort = SP) through the
-   operator cases (incl. the bound 0 <= mask < 32 of regex_flags_loop), and the
-   lexer invariant [Forall tok_ok (lex L s)] (string/identifier/variable
-   texts are UTF-8 of valid non-NUL runes; INT/NUMERIC texts carry no sign).
-   The differential test checks the executable [wf_chain] on every accepted
-   input instead (tools/parsevec). *)
+     are lexer texts;
+   * primaries (p_primary_rP): literals are in range / finite, texts are lexer
+     texts; new_regex_rP: the flag mask is within 0..31 (regex_flags_loop_bound),
+     never "x" without "q", and the pattern compiles; new_unary_wf: folding a
+     sign into a numeric literal keeps it in range / finite, otherwise the
+     operand of unary + - is an expr chain that is not a bare number;
+   * core_wf_all: induction on the fuel over p_unary/p_eop/p_loop/p_accs/
+     p_index, threading wf_chain and the sort tag (is_pred_chain c <-> sort =
+     SP), plus "no predicate where po = false" (for p_eop: when minp >= 4)
+     and "a non-empty accessor list after a token that starts an accessor"
+     (p_accs_nonnil). *)
 
 Theorem parse_ok_validate s p :
   parse L s = POk p -> validate_chain (p_root p) 0 false = None.
@@ -263,7 +762,38 @@ Proof.
     intros H. inversion H; subst. exact V.
   - destruct k; try (destruct (validate_chain c 0 false); discriminate).
 Qed.
+
+(* C04: what the parser returns on lexer-shaped tokens is in the parser image *)
+Theorem parse_tokens_wf ts p :
+  Forall tok_ok ts -> parse_tokens L ts = POk p -> wf_path L p.
+Proof.
+  intros F. unfold parse_tokens.
+  set (q := match ts with
+            | mktok (TKw KStrict) _ :: r => (false, r)
+            | mktok (TKw KLax) _ :: r => (true, r)
+            | _ => (true, ts)
+            end).
+  assert (Hq: Forall tok_ok (snd q)).
+  { subst q. destruct ts as [|[k txt] r]; [exact F|]. destruct k; try exact F.
+    destruct k; try exact F; inv_forall; assumption. }
+  destruct q as [lax ts1]. cbn [snd] in Hq.
+  destruct (core_wf_all (parser_fuel ts1)) as [_ [He _]].
+  specialize (He 0%nat true ts1 Hq).
+  destruct (p_eop L (parser_fuel ts1) 0 true ts1) as [[[so c] r]|e]; [|discriminate].
+  cbn [rP] in He. destruct He as (A & B & C & D). cbn [fst snd] in A, B, C, D.
+  destruct r as [|[k txt] r'].
+  - destruct (validate_chain c 0 false) eqn:V; [discriminate|].
+    intros H. inversion H; subst. unfold wf_path. cbn [p_root p_pred].
+    split; [exact A|split; [exact V|]]. rewrite B. destruct so; reflexivity.
+  - destruct k; try (destruct (validate_chain c 0 false); discriminate).
+Qed.
+
+Corollary parse_ok_wf_from_lexer s p :
+  Forall tok_ok (lex L s) -> parse L s = POk p -> wf_path L p.
+Proof. unfold parse. apply parse_tokens_wf. Qed.
 End L.
 
 Print Assumptions parse_ok_validate.
 Print Assumptions p_dot_rP.
+Print Assumptions parse_tokens_wf.
+Print Assumptions parse_ok_wf_from_lexer.
